@@ -276,3 +276,15 @@ Theorem C01_source_log2_ratios :
       exp2 (fn_log2_ratios log2 a k hapx min_abs_val false (on_x_mask c) (on_y_mask c))
       == rescaled a k (shifted hapx c).
 Proof. exact fn_log2_ratios_eq. Qed.
+
+(* ---- source tie of get_as_dframe_and_set_reference_and_expect_copies: its column code (np.repeat defaults, masked
+   .loc stores), read per row and regenerated from the Python source on every run (Gen/FnCallRefExpect.v), IS
+   ref_expect on every class of row -- chr_x_filter selects class ChrX, chr_y_filter ChrY, pary_filter ParY
+   (a ParY row needs a PAR build) *)
+From CNV Require Gen.FnCallRefExpect Proofs.FnCallRefExpect.
+Theorem C01_source_ref_expect : forall k hapx female has_build c,
+  (c = ParY -> has_build = true) ->
+  Gen.FnCallRefExpect.fn_ref_expect k k hapx female
+     (Proofs.FnCallRefExpect.is_x c) (Proofs.FnCallRefExpect.is_y c) has_build (Proofs.FnCallRefExpect.is_pary c)
+  = ref_expect k hapx female c.
+Proof. exact Proofs.FnCallRefExpect.source_ref_expect. Qed.
